@@ -4,7 +4,7 @@
  *   ENTRY 2: KSI_Signature_extendWithPolicy(sig, ctx, NULL, ...)                             (extend to the calendar head)
  *   -> KSI_signature_extendToWithoutVerification, KSI_createExtendRequest, KSI_Signature_getSigningTime,
  *      KSI_Signature_replacePublicationRecord are real; every callee outside signature.c is a stub with a symbolic status
- *      (c07_gates.h); tlv.c, list.c, hashchain.c getters are real.
+ *      (c07_gates.h); list.c and the hashchain.c getters are real; the TLV objects are models (tlv.c is not linked).
  * For ALL combinations of callee outcomes and all 64-bit times:
  *   success => [clone of the publication record] , send, perform, getExtendResponse (MAC gate, C06 H-5),
  *     KSI_ExtendResp_verifyWithRequest(resp, the request that was sent), getCalendarHashChain, builder opened from the SOURCE
@@ -37,6 +37,21 @@
 #define C07_HAVE_CALCHAIN_FREE 1
 #define C07_HAVE_TLV_FREE 1
 #include "c07_gates.h"
+
+/* TLV model (tlv.c not linked): tag + typed child list; enough for KSI_Signature_replacePublicationRecord */
+struct KSI_TLV_st { KSI_CTX *ctx; unsigned tag; KSI_LIST(KSI_TLV) *nested; unsigned freed; };
+static KSI_TLV m_base_tlv, m_pub_tlv; static unsigned m_tlv_new_calls, n_getnested; static int st_tlvnew, st_getnested;
+void KSI_TLV_free(KSI_TLV *t) { if (t != NULL) t->freed++; }
+KSI_IMPLEMENT_LIST(KSI_TLV, KSI_TLV_free);
+int KSI_TLV_new(KSI_CTX *ctx, unsigned tag, int isLenient, int isForward, KSI_TLV **tlv) {
+	(void)isLenient; (void)isForward; m_tlv_new_calls++;
+	st_tlvnew = ND(int, tlvnew_status); if (st_tlvnew != KSI_OK) return st_tlvnew;
+	m_pub_tlv.ctx = ctx; m_pub_tlv.tag = tag; m_pub_tlv.nested = NULL; *tlv = &m_pub_tlv; return KSI_OK;
+}
+int KSI_TLV_getNestedList(KSI_TLV *tlv, KSI_LIST(KSI_TLV) **list) {
+	n_getnested++; st_getnested = ND(int, getnested_status); if (st_getnested != KSI_OK) return st_getnested;
+	*list = tlv->nested; return KSI_OK;
+}
 
 #ifndef ENTRY
 #define ENTRY 0
@@ -88,7 +103,9 @@ int KSI_SignatureBuilder_openFromSignature(const KSI_Signature *sig, KSI_Signatu
 	if (s != KSI_OK) return s;
 	*builder = c07_open_builder(VERIF_ctx);
 	/* the clone under construction has a (real, empty) 0x800 element and the method table of a real signature */
-	int r = KSI_TLV_new(VERIF_ctx, 0x800, 0, 0, &m_sig_obj.baseTlv); ASSUME(r == KSI_OK);
+	m_base_tlv.ctx = VERIF_ctx; m_base_tlv.tag = 0x800;
+	int r = KSI_TLVList_new(&m_base_tlv.nested); ASSUME(r == KSI_OK);
+	m_sig_obj.baseTlv = &m_base_tlv;
 	extern int c08_removeCalAuthAndPublication(KSI_Signature *sig);
 	m_sig_obj.removeCalAuthAndPublication = c08_removeCalAuthAndPublication;
 	return KSI_OK;
@@ -104,9 +121,8 @@ int KSI_PublicationRecord_clone(const KSI_PublicationRecord *rec, KSI_Publicatio
 int KSI_PublicationRecord_getPublishedData(const KSI_PublicationRecord *t, KSI_PublicationData **d) { *d = t->publishedData; return KSI_OK; }
 int KSI_PublicationData_getTime(const KSI_PublicationData *t, KSI_Integer **tm) { *tm = t->time; return KSI_OK; }
 void KSI_PublicationRecord_free(KSI_PublicationRecord *t) { if (t == &pub_clone) pub_clone_freed++; else __CPROVER_assert(t == NULL, "CHECK C08.H3 only the cloned publication record is ever released"); }
-static int st_construct = -1;
-int KSI_TlvTemplate_construct(KSI_CTX *ctx, KSI_TLV *tlv, const void *payload, const KSI_TlvTemplate *tmpl) { (void)ctx; (void)tlv; (void)tmpl; __CPROVER_assert(payload == &pub_clone, "CHECK C08.H3 the publication element is built from the cloned record"); st_construct = ND(int, construct_status); return st_construct; }
-void KSI_AggregationHashChain_free(KSI_AggregationHashChain *c) { (void)c; }
+static int st_construct; static unsigned n_construct;
+int KSI_TlvTemplate_construct(KSI_CTX *ctx, KSI_TLV *tlv, const void *payload, const KSI_TlvTemplate *tmpl) { (void)ctx; (void)tlv; (void)tmpl; __CPROVER_assert(payload == &pub_clone, "CHECK C08.H3 the publication element is built from the cloned record"); n_construct++; st_construct = ND(int, construct_status); return st_construct; }
 
 #define KSI_CalendarHashChain_verifyCompatibilityTo c08_compat
 #include "signature.c"
@@ -201,7 +217,12 @@ void harness(void) {
 			CHECK(m_verify_doc == NULL && m_verify_level == 0 && m_verify_policy == &pol && m_verify_ctx == vc, "C08.H3 the result is verified with the caller's policy and context");
 			CHECK(out == &m_sig_obj && SIG_ALIVE_AND_OWNED(), "C08.H3 the returned signature is the verified object and is alive");
 #if ENTRY == 1
-			CHECK(st_construct == KSI_OK && m_sig_obj.publication == &pub_clone && pub_clone_freed == 0, "C08.H3 the result carries the cloned publication record, the caller keeps the original");
+			CHECK(n_construct == 1 && st_construct == KSI_OK && m_sig_obj.publication == &pub_clone && pub_clone_freed == 0, "C08.H3 the result carries the cloned publication record, the caller keeps the original");
+			{
+				KSI_TLV *last = NULL;
+				CHECK(m_pub_tlv.tag == 0x803 && KSI_TLVList_length(m_base_tlv.nested) == 1 && KSI_TLVList_elementAt(m_base_tlv.nested, 0, &last) == KSI_OK && last == &m_pub_tlv,
+					"C08.H3 a 0x803 element built from the clone is appended to the result's signature element");
+			}
 			if (t_to > t_sign) WITNESS_POINT("extended to a publication record");
 #elif ENTRY == 0
 #if HAS_TO
@@ -217,7 +238,9 @@ void harness(void) {
 			int failing = 0, match = 0;
 			for (unsigned i = 0; i < 16; i++) if (i < n && g_calls[G[i]] == 1 && g_status[G[i]] != KSI_OK) { failing++; if (g_status[G[i]] == res) match = 1; }
 #if ENTRY == 1
-			if (st_construct != KSI_OK && st_construct != -1) { failing++; if (st_construct == res) match = 1; }
+			if (n_construct == 1 && st_construct != KSI_OK) { failing++; if (st_construct == res) match = 1; }
+			if (m_tlv_new_calls == 1 && st_tlvnew != KSI_OK) { failing++; if (st_tlvnew == res) match = 1; }
+			if (n_getnested == 1 && st_getnested != KSI_OK) { failing++; if (st_getnested == res) match = 1; }
 #endif
 			CHECK(failing == 1 && match, "C08.H3 the error returned is the status of the one step that failed");
 			CHECK(m_builder == NULL || SIG_RELEASED(), "C08.H3 a signature under construction is released on failure");
